@@ -274,10 +274,16 @@ def r2(F, R):
     n = 0
     for b in F.trait_method_impls("MassMatrixAdaptStrategy", "adapt"):
         adt = b.parent.get("self_adt") or ""
-        muts = [(bb, t) for bb, t in b.calls() if (t["callee"].get("name") or "").startswith(("update_diag", "set_transform", "update"))
-                and t["args"] and b.local_ty(K.root_local(b, t["args"][0]) or 0).startswith("&mut")]
-        if not path_ends(adt, "transform::adapt::diagonal::Strategy"):
-            continue
+        # the &mut transformation parameter (the only `&mut` parameter besides math: &mut M)
+        tparams = [i for i in range(2, b.arg_count + 1) if b.local_ty(i).startswith("&mut") and b.local_ty(i) != "&mut M"]
+        muts = []
+        for bb, t in b.calls():
+            for a in t["args"]:
+                if a["k"] in ("copy", "move") and K.root_local(b, a) in tparams:
+                    muts.append((bb, t))
+                    break
+        if not muts:
+            R.bad("C08-R2", b.path + ":mutators", b.path, "adapt() never passes the transformation on (anchor)")
         from . import rel as Rl
         for i, (bb, t) in enumerate(muts):
             n += 1
@@ -287,7 +293,7 @@ def r2(F, R):
                 if r is None:
                     continue
                 for (op, x, y) in ((o, l, r), (Rl.FLIP.get(o), r, l)):
-                    if op in ("Ge", "Gt") and x[0] == "call" and path_ends(x[1], "current_count") and y[0] == "const":
+                    if op in ("Ge", "Gt") and x[0] == "call" and strip_generics(x[1]).endswith("current_count") and y[0] == "const":
                         c = int(y[2])
                         if (op == "Ge" and c >= 3) or (op == "Gt" and c >= 2):
                             okk = True
@@ -298,7 +304,7 @@ def r2(F, R):
             else:
                 R.bad("C08-R2", key, site, "%s is not guarded by current_count() >= 3 (guards: %s): a variance from fewer than three draws can be written" % (
                     t["callee"]["name"], [(o, vt_str(l), vt_str(r) if r else None) for (o, l, r, _s) in rels]))
-    R.floor("C08-R2", 2)
+    R.floor("C08-R2", 3)
 
 
 def r4(F, R):
